@@ -81,8 +81,13 @@ func (dx *dclient) Run() error {
 
 		if !dx.limiter.Allow() {
 			dx.l.Printf("client went bananas, consumed all tokens! - will exit in 20 sec.")
-			time.Sleep(20 * time.Second)
-			dx.l.Panicf("EXITING AFTER FATAL ERROR: CLIENT CONSUMED ALL TOKENS!")
+			select {
+			case <-time.After(20 * time.Second):
+				dx.l.Panicf("EXITING AFTER FATAL ERROR: CLIENT CONSUMED ALL TOKENS!")
+			case <-dx.ctx.Done():
+				// Asked to stop (or to resume on a link event) while pausing: do that instead.
+				return dx.ctx.Err()
+			}
 		}
 		// break if main context is done.
 		if err := dx.ctx.Err(); err != nil {
